@@ -15,6 +15,7 @@
 package diagnostic
 
 import (
+	"cmp"
 	"go/ast"
 	"reflect"
 	"slices"
@@ -78,6 +79,10 @@ func run(p *analysis.Pass) ([]Range, error) {
 		}
 	}
 
+	// The comment map is a Go map, so the ranges above are collected in a random order. Sort them
+	// such that the exported fact (and hence the build output) is deterministic.
+	slices.SortFunc(ranges, compareRanges)
+
 	// Import all nolint ranges from upstream.
 	var upstreamRanges []Range
 	for _, f := range pass.AllPackageFacts() {
@@ -88,12 +93,24 @@ func run(p *analysis.Pass) ([]Range, error) {
 		upstreamRanges = append(upstreamRanges, upstreamNoLintRanges.Ranges...)
 	}
 
+	// `pass.AllPackageFacts()` returns the facts in an unspecified order.
+	slices.SortFunc(upstreamRanges, compareRanges)
+
 	// Export local nolint ranges (if available) for downstream uses.
 	if len(ranges) > 0 {
 		pass.ExportPackageFact(&NoLint{Ranges: ranges})
 	}
 
 	return slices.Concat(ranges, upstreamRanges), nil
+}
+
+// compareRanges orders nolint ranges by file name and then by their line span.
+func compareRanges(a, b Range) int {
+	return cmp.Or(
+		cmp.Compare(a.Filename, b.Filename),
+		cmp.Compare(a.From, b.From),
+		cmp.Compare(a.To, b.To),
+	)
 }
 
 // nolintContainsNilAway checks if the particular comment is a nolint comment for NilAway suppression.
